@@ -3,7 +3,7 @@
 // of small generated multi-file projects, each analysed / generated R times in-process (fresh hash
 // seeds each time).  Labelled bounded; serves C07/C09 (discovery + edges), C12 (emit placements),
 // C13 (determinism), C15 (bad files isolated, no panic), C16 (only reserved names written).
-use std::collections::{BTreeMap, BTreeSet};
+use std::collections::{BTreeMap, BTreeSet, HashSet};
 use std::fs;
 use std::path::{Path, PathBuf};
 use tauri_typegen::analysis::CommandAnalyzer;
@@ -54,6 +54,26 @@ fn corpus() -> Vec<Proj> {
     v.push(Proj { name: "graph_only_names", files: vec![
         ("lib.rs", format!("{}{}{}{}{}#[tauri::command]\npub fn run(j: Job) -> Result<Outcome, Failure> {{ todo!() }}\n", HDR,
             st("Job", &[("last", "Result<Outcome, Failure>"), ("history", "Vec<Result<Outcome, String>>")]), st("Outcome", &[("code", "u32")]), st("Failure", &[("why", "String")]), st("Orphan", &[("x", "u32")]))),
+    ]});
+    // type names that differ only in letter case (legal Rust), each used by a command
+    v.push(Proj { name: "case_names", files: vec![
+        ("io.rs", format!("{}{}#[tauri::command]\npub fn low() -> IoError {{ todo!() }}\n", HDR, st("IoError", &[("code", "u32")]))),
+        ("net.rs", format!("{}{}{}#[tauri::command]\npub fn high(e: IOError) -> Vec<Ioerror> {{ vec![] }}\n", HDR, st("IOError", &[("message", "String")]), st("Ioerror", &[("inner", "IOError")]))),
+    ]});
+    // 26 types whose references go with and against the name order
+    v.push(Proj { name: "many_types", files: vec![
+        ("lib.rs", {
+            let mut src = HDR.to_string();
+            for i in 0..26usize {
+                let mut fields: Vec<(String, String)> = vec![("n".to_string(), "u32".to_string())];
+                let refs: &[usize] = match i { 0 => &[1], 1 => &[12], 5 => &[20, 2], 12 => &[25], 13 => &[3], 20 => &[21], 24 => &[0], _ => &[] };
+                for r in refs { if *r != i { fields.push((format!("r{}", r), format!("A{:02}", r))); } }
+                let fs: Vec<(&str, &str)> = fields.iter().map(|(a, b)| (a.as_str(), b.as_str())).collect();
+                src.push_str(&st(&format!("A{:02}", i), &fs));
+            }
+            src.push_str(&format!("#[tauri::command]\npub fn all({}) -> u32 {{ 0 }}\n", (0..26).map(|i| format!("a{}: A{:02}", i, i)).collect::<Vec<_>>().join(", ")));
+            src
+        }),
     ]});
     // events in every documented placement
     v.push(Proj { name: "events", files: vec![
@@ -162,6 +182,25 @@ fn main() {
                 Ok(format!("{:?}", structs.keys().collect::<Vec<_>>()))
             });
         }
+        // ---- C09 / C07: analysing twice with the SAME analyzer leaves the same structs and edges
+        rep.case("reanalysis_keeps_structs_and_edges", &format!("project={}", p.name), &|| {
+            let mut an = CommandAnalyzer::new();
+            let mut snaps = Vec::new();
+            for _ in 0..3 {
+                an.analyze_project(dir.to_str().unwrap()).map_err(|e| format!("analyze_project returned Err: {}", e))?;
+                let mut structs: Vec<String> = an.get_discovered_structs().keys().cloned().collect();
+                structs.sort();
+                let mut deps = BTreeMap::new();
+                for k in &structs { let d: BTreeSet<String> = an.get_dependency_graph().get_dependencies(k).map(|s| s.iter().cloned().collect()).unwrap_or_default(); deps.insert(k.clone(), d); }
+                let mut order: HashSet<String> = HashSet::new();
+                for k in &structs { order.insert(k.clone()); }
+                let sorted = an.topological_sort_types(&order);
+                snaps.push((structs, deps, sorted));
+            }
+            if snaps[1] != snaps[0] { return Err(format!("the second analysis with the same analyzer differs from the first: {:?} vs {:?}", snaps[0], snaps[1])); }
+            if snaps[2] != snaps[0] { return Err("the third analysis with the same analyzer differs from the first".into()); }
+            Ok(format!("{} types", snaps[0].0.len()))
+        });
         // ---- C13: analysis and generated files do not depend on hash seeds
         rep.case("analysis_deterministic", &format!("project={}", p.name), &|| {
             let (first, _) = analyse(&dir)?;
@@ -219,7 +258,7 @@ fn main() {
                 let out = root.join(p.name).join(format!("out_io_{}", mode));
                 let _ = fs::remove_dir_all(&out);
                 fs::create_dir_all(out.join("notes")).map_err(|e| e.to_string())?;
-                let decoys = ["helpers.ts", "my-types.ts", "types.tmp", "types.ts.bak", "commands.tmp", "index.tmp", "events.tmp", "index.js", "types.tsx", "README.md", ".typecache.old", ".write_test", ".gitkeep", "commands.test.ts", "index.spec.ts", "notes/keep.txt"];
+                let decoys = ["helpers.ts", "my-types.ts", "types.tmp", "types.ts.bak", "commands.tmp", "index.tmp", "events.tmp", "index.js", "types.tsx", "README.md", ".typecache.old", ".write_test", ".gitkeep", "commands.test.ts", "index.spec.ts", "dependency-graph.png", "dependency-graph.svg", "dependency-graph.txt.bak", "notes/keep.txt"];
                 for d in decoys { fs::write(out.join(d), format!("foreign {}", d)).map_err(|e| e.to_string())?; }
                 let before = snapshot(&out);
                 let mut cfg = GenerateConfig::default();
@@ -278,7 +317,7 @@ fn main() {
             fs::create_dir_all(out.join("notes")).map_err(|e| e.to_string())?;
             fs::write(proj.join("tauri.conf.json"), format!("{{\n  \"productName\": \"demo\",\n  \"plugins\": {{ \"typegen\": {{ \"projectPath\": {:?}, \"outputPath\": {:?}, \"validationLibrary\": {:?}, \"force\": {} }} }}\n}}\n",
                 proj.join("src-tauri").to_string_lossy(), out.to_string_lossy(), mode, force)).map_err(|e| e.to_string())?;
-            let decoys = ["helpers.ts", "commands.test.ts", "index.spec.ts", "types.mock.ts", "bindings.helpers.ts", "mytypes.ts", "types.tsx", "README.md", "MyHelpers.ts", "Types.ts", "API.md", ".write_test", ".gitkeep", "types.ts.bak", "notes/keep.txt"];
+            let decoys = ["helpers.ts", "commands.test.ts", "index.spec.ts", "types.mock.ts", "bindings.helpers.ts", "mytypes.ts", "types.tsx", "README.md", "MyHelpers.ts", "Types.ts", "API.md", ".write_test", ".gitkeep", "types.ts.bak", "dependency-graph.png", "dependency-graph.svg", "notes/keep.txt"];
             for d in decoys { fs::write(out.join(d), format!("foreign {}", d)).map_err(|e| e.to_string())?; }
             fs::write(out.join("models.ts"), "// stale generated file").map_err(|e| e.to_string())?;
             let conf_before = fs::read_to_string(proj.join("tauri.conf.json")).unwrap_or_default();
